@@ -225,7 +225,7 @@ func (g *gen) rpc(id int) *RPC {
 		r.CtxVals = 1 + g.pick(4)
 	}
 	if g.p(k.pCreds) {
-		r.Creds = &CredSpec{MD: g.md(2)}
+		r.Creds = &CredSpec{MD: g.md(2), Canon: g.p(0.3)}
 		if g.p(0.35) {
 			r.Creds.DelayN = g.dur() // the lookup takes (virtual) time
 		}
@@ -452,6 +452,19 @@ func (g *gen) rpc(id int) *RPC {
 				for i := 0; i < n; i++ {
 					lateOps = append(lateOps, Op{K: "late", N: g.pick(5), D: g.dur()})
 				}
+				if r.Kind == KUnary && g.p(0.6) {
+					// at once: the worker races with the library putting the
+					// reply together, and the caller looks at what it got
+					for i := range lateOps {
+						lateOps[i].D = 0
+					}
+					if r.NHdrOpts == 0 {
+						r.NHdrOpts = 1
+					}
+					if r.NTlrOpts == 0 {
+						r.NTlrOpts = 1
+					}
+				}
 				h = append(h[:len(h)-1], append(lateOps, h[len(h)-1])...)
 			}
 		case 6: // the handler gives up on the requests: it reads a few and returns while the client is still sending
@@ -627,6 +640,20 @@ func (g *gen) rpc(id int) *RPC {
 		case "recvall":
 			if g.p(k.pJunkDst) {
 				h[i].Ref = "junk"
+			}
+		}
+	}
+	if k.pUnenc > 0 {
+		// a header-setting call right after a response that could not be
+		// encoded: it succeeds if that was the first thing the handler sent
+		// and fails if headers had gone out before
+		for i := range h {
+			if h[i].K == "send" && h[i].Msg != nil && h[i].Msg.Kind == 4 {
+				if g.p(0.5) {
+					op := Op{K: []string{"sethdr", "sendhdr"}[g.pick(2)], MD: append(g.md(1), KV{K: "k1", V: "after-unenc"})}
+					h = append(h[:i+1], append([]Op{op}, h[i+1:]...)...)
+				}
+				break
 			}
 		}
 	}
